@@ -76,6 +76,14 @@ def run(res):
     r = C.rng(res.seed, "c07")
     w = cli.Work("c07")
     ncase = 40 if res.tier == "quick" else 500
+    from .. import rpucases as RC
+    trees = RC.valid_trees(res.seed, 90, "c07", profile=8)
+    okl = C.dvh().run(["parseclass rpu " + (RC.SC4 + raw).hex() for t, raw, m in trees])
+    pool = []
+    for (t, raw, m), ok in zip(trees, okl):
+        x = raw.rstrip(b"\x00")
+        if ok == "ok" and x[:3] == bytes([0x19, 8, 9]) and x not in pool:
+            pool.append(x)
     nrun = 0
     kinds = {}
     for k in range(ncase + 1):
@@ -127,7 +135,7 @@ def run(res):
         # ---------------- inject-rpu
         nfr = len(gop)
         nr = r.choice([nfr, nfr, nfr, max(1, nfr - 2), nfr + 3])
-        rpus = [S.tagged_rpu(r, 1000 + i) for i in range(nr)]
+        rpus = r.sample(pool, nr) if nr <= len(pool) else [r.choice(pool) for _ in range(nr)]      # valid, pairwise distinct RPUs
         rpuf = w.write("new.bin", b"".join(b"\x00\x00\x00\x01" + R.escape(x) for x in rpus))
         src_frames = frames if r.random() < 0.5 else [[nn for nn in f if nn.type != 62] for f in frames]
         src = S.flatten(src_frames)
@@ -139,9 +147,12 @@ def run(res):
         noaud = r.random() < 0.4
         annexb = r.random() < 0.3
         args = (["--start-code", "annex-b"] if annexb else []) + ["inject-rpu", "-i", inp2, "--rpu-in", rpuf, "-o", outh] + (["--no-add-aud"] if noaud else [])
+        # the hook also drives the RPU file reader, whose BufReader needs requests >= 8192 bytes
+        cs = r.choice([None, 10000, 12500, 20000, 50000])
         ec, txt = cli.run(args, w.dir, chunk_size=cs)
         nrun += 1
         kinds["inject"] = kinds.get("inject", 0) + 1
+        kinds["inject_ok"] = kinds.get("inject_ok", 0) + (1 if ec == "0" else 0)
         m = C.model().run(["inject noaud=%d,annexb=%d %s %s" % (1 if noaud else 0, 1 if annexb else 0, ";".join(x.model() for x in src), ",".join((b"\x7c\x01" + R.escape(x)).hex() for x in rpus))])[0]
         rp = {"cmd": "inject-rpu", "gop": gop, "chunk_size": cs, "no_add_aud": noaud, "stream_hex": sdata.hex(), "rpus": [x.hex() for x in rpus], "nals": [x.model() for x in src]}
         if ec not in ("0", "1"):
